@@ -62,15 +62,17 @@ type resolver struct {
 
 func (r *resolver) module(y *Module) error {
 	r.loadedModules[y.ident] = y
-	if y.featureSet != nil {
-		if err := y.featureSet.Initialize(y); err != nil {
-			return err
-		}
-	}
 
 	// exand all includes
 	if err := r.copyOverIncludes(y, y.includes); err != nil {
 		return err
+	}
+
+	// after includes so the features defined in submodules are known
+	if y.featureSet != nil {
+		if err := y.featureSet.Initialize(y); err != nil {
+			return err
+		}
 	}
 
 	// expand all imports first because local uses may reference groupings in other files.
